@@ -9,8 +9,8 @@ package utils
 // The address that signed `msg` with signature `sig`, as go-ethereum derives it: the last 20 bytes of the Keccak-256
 // digest of the recovered 65-byte public key without its first (format) byte; the digest signed is Keccak-256 of the
 // message bytes. keccak256 / ecrecover are uninterpreted (prelude): this fixes WHICH primitive is applied to WHICH bytes.
-//@ ghost func sigRecovers(sig bytes, msg string) bool = ecrecoverOk(keccak256(sbytes(msg)), sig)
-//@ ghost func sigSigner(sig bytes, msg string) common.Address = bytesAddr(bsub(keccak256(bsub(ecrecover(keccak256(sbytes(msg)), sig), 1, 65)), 12, 32))
+//@ ghost func sigRecovers(sig bytes, msg string) bool = ecrecoverOk(keccak256(strBytes(msg)), sig)
+//@ ghost func sigSigner(sig bytes, msg string) common.Address = bytesAddr(bsub(keccak256(bsub(ecrecover(keccak256(strBytes(msg)), sig), 1, 65)), 12, 32))
 
 //@ func VerifySignature(address common.Address, signature []byte, message string) (ok bool, err error)
 //@   modifies nothing
